@@ -286,7 +286,7 @@ func init() {
 			if build == "race" {
 				return 30000
 			}
-			return vf.Tiered(tier, 500, 400000)
+			return vf.Tiered(tier, 2500, 400000)
 		},
 		Builds: func(tier string) []string {
 			if tier == "thorough" {
